@@ -38,6 +38,9 @@ LARK = [
     # (ranges never contain the EOS id, which is the last id of every harness vocabulary: where a
     #  grammar names EOS itself, C01's EOS clause and C19's range clause contradict each other)
     ("tok_range", 'start: "x" <[256-257]> "y" | "x" <[258-259]> "z"\n'),
+    # lexemes that mix character classes (a slice of one class is only partly contained in them)
+    ("class_mix", 'start: /[a-z0-9]+[A-Z]?/ "!"\n'),
+    ("class_mix2", 'start: item ("," item)*\nitem: /[a-f0-9]+/ | /[A-Z][a-z]*/ | /[x-z]{1,3}[0-9]?/\n'),
     ("keywords", 'start: stmt+\nstmt: "let " ID "=" NUM ";" | "print " ID ";"\nID: /[a-z][a-z0-9]{0,5}/\nNUM: /-?[0-9]{1,3}/\n'),
     ("alt_prefixes", 'start: "foo" | "foobar" | "foobaz" | "fob" | "f"\n'),
     ("nested_rep", 'start: (("a"|"b"){2} ","){1,3} "."\n'),
@@ -109,6 +112,11 @@ SCHEMAS = [
                          {"type": "object", "properties": {"b": {"type": "string", "maxLength": 3}}}]}),
     ("prefix_items", {"type": "array", "prefixItems": [{"type": "integer"}, {"enum": ["x", "y"]}],
                       "items": {"type": "boolean"}, "minItems": 1, "maxItems": 4}),
+    # a prefix position nothing can fill: the array has to end before it, whatever `items` says
+    ("prefix_false", {"type": "array", "prefixItems": [{"type": "integer"}, False]}),
+    ("prefix_contradiction", {"type": "array", "prefixItems": [{"enum": ["x"]}, {"type": "boolean"},
+                                                                {"allOf": [{"type": "string"}, {"type": "null"}]}],
+                              "items": {"type": "integer"}, "minItems": 1}),
     ("free_object", {"type": "object"}),
     ("date_only", {"type": "string", "format": "date"}),
     # two multipleOf values whose least common multiple does not fit 32 bits (was: silent wrap, see known_findings fixed:)
@@ -120,7 +128,9 @@ SCHEMAS = [
 
 
 # candidate instance texts offered in addition to the generated ones
-EXTRA_INSTANCES = {"lcm_overflow": ["65536", "131072", "0", "4295032832"],
+EXTRA_INSTANCES = {"prefix_false": ["[]", "[1]", "[1,2]", '[1,"x"]', "[1,2,3]"],
+                   "prefix_contradiction": ['["x"]', '["x",true]', '["x",true,1]', '["x",true,"s"]', '["x",true,null,4]', "[]"],
+                   "lcm_overflow": ["65536", "131072", "0", "4295032832"],
                    # the recorded finding: February 29 is accepted in every year
                    "date_only": ['"2023-02-29"', '"2024-02-29"', '"2023-02-30"', '"1900-02-29"']}
 
